@@ -29,6 +29,7 @@ type c03World struct {
 	secondDenomPaid bool
 	rewardsPaid     int
 	formsOpened     int
+	shutdowns       int
 }
 
 func must2(r chain.Result) {
@@ -348,6 +349,24 @@ func TestC03(t *testing.T) {
 				w.logf("%s stops proving %s", short(w.pairs[k].Prover), w.pairs[k].File.id())
 			}
 		}
+		// some registered provers close their provider record (getting their collateral back), some of them register again:
+		// neither touches what they hold and what they have proven
+		for _, p := range w.provs {
+			if !w.registered[p.Bech] || rapid.IntRange(0, 5).Draw(rt, "shutsDown") != 0 {
+				continue
+			}
+			r := w.f.Exec(newMsgShutdownProvider(p.Bech))
+			w.logf("%s shuts its provider record down -> %s", short(p.Bech), r)
+			if r.OK() {
+				w.registered[p.Bech] = false
+				w.shutdowns++
+				if rapid.Bool().Draw(rt, "registersAgain") {
+					if r2 := w.initProvider(p, "https://back."+strings.TrimPrefix(w.ipOf(p), "https://")); r2.OK() {
+						w.registered[p.Bech] = true
+					}
+				}
+			}
+		}
 		if openForms {
 			for _, k := range w.sortedPairKeys() {
 				pr := w.pairs[k]
@@ -417,6 +436,9 @@ func TestC03(t *testing.T) {
 		if w.formsOpened > 0 {
 			rec.Count("histories-with-open-attestation-forms")
 		}
+		if w.shutdowns > 0 {
+			rec.Count("histories-with-a-prover-shutting-its-provider-record-down")
+		}
 		if w.rewardsPaid > 0 {
 			rec.Count("histories-with-paying-reward-block")
 			if w.secondDenomPaid {
@@ -447,4 +469,12 @@ func newC03WorldFunded(c *chain.Chain, W, C int64, nProv, unregistered int) *c03
 	}
 	w.onReward = w.rewardOracle
 	return w
+}
+
+// ipOf is the address a prover of this world registered with.
+func (w *c03World) ipOf(p chain.Account) string {
+	if pr, found := w.c.App.StorageKeeper.GetProviders(w.f.Ctx, p.Bech); found {
+		return pr.Ip
+	}
+	return fmt.Sprintf("https://p%d.example%d.com", p.Index, p.Index)
 }
